@@ -20,6 +20,7 @@
 #include "Estimation/CalcImage.hpp"
 #include "Estimation/CalcGlobal.hpp"
 #include "Matrix/MatrixSquareSymmetric.hpp"
+#include "Matrix/MatrixRectangular.hpp"
 #include "Estimation/CalcSimpleInterpolation.hpp"
 #include "Simulation/CalcSimuTurningBands.hpp"
 #include "Simulation/CalcSimuFFT.hpp"
@@ -211,13 +212,16 @@ static Model* makeModel(int ndim, int nvar, bool extDrift = false, double sill =
 
 static const std::set<std::string> OLD_SAME = {"xvalid", "simfft", "anam_transform", "regression", "gaussian_to_raw", "normal_score"};
 // data base layout of the profile
-static const std::set<std::string> SAME_DATA = {"xvalid", "anam_transform", "regression", "gaussian_to_raw", "normal_score",
+static const std::set<std::string> SAME_DATA = {"xvalid", "xvalid_one", "xvalid_varz", "anam_transform", "regression", "gaussian_to_raw", "normal_score",
                                                 "raw_to_factor", "raw_to_factor_ranks", "simupost_self"};
 static const std::set<std::string> SAME_GRID = {"simfft", "simfft_multi", "krimage", "db_smoother", "morpho", "morpho_gradient",
-                                                "cond_expectation", "uniform_cond", "disj_kriging"};
+                                                "cond_expectation", "uniform_cond", "disj_kriging", "cond_expectation_one",
+                                                "cond_expectation_tq", "cond_expectation_tqbm", "uniform_cond_tq", "disj_kriging_tq"};
+static const std::set<std::string> TWO_VAR = {"kriging_2var", "kriging_lc", "kriging_colcok", "stats_grid_multi"};
+static bool starts(const std::string& s, const std::string& p) { return s.rfind(p, 0) == 0; }
 static const std::set<std::string> OUT_ONLY = {"simtub_nc", "tess_voronoi", "tess_poisson", "substitution", "eden", "eden_stats",
                                                "simbool_nc"};
-static const std::set<std::string> ANAM_MODEL = {"kriging_dgm", "simtub_dgm", "krig_factors", "krig_factors_cs", "kriggam"};
+static const std::set<std::string> ANAM_MODEL = {"kriging_dgm", "simtub_dgm", "krig_factors", "krig_factors_cs", "krig_factors_one", "kriggam"};
 
 static const std::map<std::string, std::string> PFX = {
   {"kriging", "Kriging"}, {"kriging_moving", "Kriging"}, {"kriging_extdrift", "Kriging"}, {"xvalid", "Xvalid"},
@@ -234,7 +238,13 @@ static const std::map<std::string, std::string> PFX = {
   {"g2g_copy", "Copy"}, {"g2g_expand", ""}, {"g2g_shrink", "Shrink"}, {"g2g_interp", "Interpolation"},
   {"simupost_up", "Post"}, {"simupost_self", "Post"}, {"simupost_demo", "Post"}, {"simupost_layer", "Prop"},
   {"gaussian_to_raw", "Z"}, {"normal_score", "Gaussian"}, {"raw_to_factor", "Factor"}, {"raw_to_factor_ranks", "Factor"},
-  {"cond_expectation", "CE"}, {"uniform_cond", "UC"}, {"disj_kriging", "DK"}, {"db_proportion", "Prop"}};
+  {"cond_expectation", "CE"}, {"uniform_cond", "UC"}, {"disj_kriging", "DK"}, {"db_proportion", "Prop"},
+  {"kriging_one", "Kriging"}, {"kriging_2var", "Kriging"}, {"kriging_lc", "Kriging"}, {"kriging_colcok", "Kriging"},
+  {"xvalid_one", "Xvalid"}, {"xvalid_varz", "Xvalid"}, {"krig_factors_one", "KD"}, {"invdist_stdonly", "InvDist"},
+  {"nearest_neighbor_std", "Nearest"}, {"moving_average_std", "MovAve"}, {"moving_median_std", "MovMed"},
+  {"stats_grid_mean", "Stats"}, {"stats_grid_var", "Stats"}, {"stats_grid_multi", "Stats"}, {"simupost_up1", "Post"},
+  {"simupost_up8", "Post"}, {"simupost_match", "Post"}, {"cond_expectation_one", "CE"}, {"cond_expectation_tq", "CE"},
+  {"cond_expectation_tqbm", "CE"}, {"uniform_cond_tq", "UC"}, {"disj_kriging_tq", "DK"}};
 
 static int invoke(const std::string& profile, const std::string& variant, Env& e);
 
@@ -243,7 +253,8 @@ static void setup(const std::string& profile, const std::string& variant, Env& e
 {
   int ndim = 2;
   int ndimModel = (variant == "ndim_mismatch") ? 3 : 2;
-  int nvarModel = (variant == "nvar_mismatch" || variant == "nvar_model_two") ? 2 : 1;
+  int nvarData = TWO_VAR.count(profile) ? 2 : 1;
+  int nvarModel = (variant == "nvar_mismatch" || variant == "nvar_model_two") ? 3 - nvarData : nvarData;
   bool withZ = variant != "no_z";
   bool ext = profile == "kriging_extdrift";
   auto it = PFX.find(profile);
@@ -253,7 +264,7 @@ static void setup(const std::string& profile, const std::string& variant, Env& e
   if (SAME_DATA.count(profile))
   {
     e.same = true;
-    e.dbin = makeData(ndim, 1, withZ, false);
+    e.dbin = makeData(ndim, 1, withZ, variant == "mode1");
     if (profile == "simupost_self")
     { addCol(e.dbin, "SimA.1", 1.0, 0.3); addCol(e.dbin, "SimA.2", 2.0, -0.2); }
     e.dbout = e.dbin;
@@ -263,9 +274,9 @@ static void setup(const std::string& profile, const std::string& variant, Env& e
     e.same = true;
     int nz = (variant == "two_z") ? 2 : 1;
     DbGrid* g = makeGridZ({5, 5}, nz, withZ);
-    if (profile == "cond_expectation" || profile == "uniform_cond")
+    if (starts(profile, "cond_expectation") || starts(profile, "uniform_cond"))
     { addCol(g, "K.estim", -0.8, 0.07); addCol(g, "K.stdev", 0.35, 0.01); }
-    if (profile == "disj_kriging")
+    if (starts(profile, "disj_kriging"))
     {
       addCol(g, "F.1.estim", -0.5, 0.04); addCol(g, "F.2.estim", 0.2, -0.01);
       addCol(g, "F.1.stdev", 0.4, 0.005); addCol(g, "F.2.stdev", 0.6, 0.004);
@@ -314,7 +325,8 @@ static void setup(const std::string& profile, const std::string& variant, Env& e
       e.dbin = g; e.dbout = wrong ? makeGrid(2, false) : makeGrid(3, false);
     }
   }
-  else if (profile == "simupost_up" || profile == "simupost_demo" || profile == "simupost_layer")
+  else if (profile == "simupost_up" || profile == "simupost_demo" || profile == "simupost_layer" || profile == "simupost_up1" ||
+           profile == "simupost_up8" || profile == "simupost_match")
   {
     e.dbin = makeData(ndim, 1, true, false);
     addCol(e.dbin, "SimA.1", 0.2, 0.05); addCol(e.dbin, "SimA.2", 0.3, 0.04);
@@ -347,11 +359,17 @@ static void setup(const std::string& profile, const std::string& variant, Env& e
     for (int i = 0; i < 7; i++) e.dbin->setArray(i, u1, 1 + (i % 2));
     e.dbout = makeGridZ({4, 4}, 0);
   }
+  else if (profile == "migrate" && (starts(variant, "g2") || starts(variant, "p2p")))
+  {
+    if (starts(variant, "g2")) e.dbin = makeGridZ({3, 3}, 1, true); else e.dbin = makeData(ndim, 1, true, false);
+    if (starts(variant, "g2g")) e.dbout = makeGridZ({4, 4}, 0, true, 0.75); else e.dbout = makePoints(ndim);
+  }
   else
   {
-    e.dbin = makeData(ndim, 1, withZ, ext && variant != "expand");
+    e.dbin = makeData(ndim, nvarData, withZ, ext && variant != "expand");
     if (variant == "points_out" || variant == "block_on_points") e.dbout = makePoints(ndim);
     else e.dbout = makeGrid(ndim, ext && variant != "no_ext_out");
+    if (profile == "kriging_colcok") addCol(e.dbout, "sec", 0.4, 0.13);
   }
 
   // profile-specific columns of the input / output data bases
@@ -378,9 +396,9 @@ static void setup(const std::string& profile, const std::string& variant, Env& e
   if (variant == "no_model") { delete e.model; e.model = nullptr; }
   if ((profile == "kribayes" || profile == "simbayes") && e.model != nullptr) e.model->setDriftIRF(0);
 
+  bool selProfile = starts(profile, "cond_expectation") || starts(profile, "uniform_cond") || starts(profile, "disj_kriging");
   bool needAnam = ANAM_MODEL.count(profile) || profile == "anam_transform" || profile == "gaussian_to_raw" ||
-                  profile == "normal_score" || profile == "raw_to_factor" || profile == "raw_to_factor_ranks" ||
-                  profile == "cond_expectation" || profile == "uniform_cond" || profile == "disj_kriging";
+                  profile == "normal_score" || profile == "raw_to_factor" || profile == "raw_to_factor_ranks" || selProfile;
   if (needAnam)
   {
     e.anam = AnamHermite::create(12);
@@ -391,12 +409,12 @@ static void setup(const std::string& profile, const std::string& variant, Env& e
       e.anam->fitFromLocator(ref);
       delete ref;
     }
-    bool support = (profile == "kriging_dgm" || profile == "simtub_dgm" || profile == "krig_factors_cs" || profile == "uniform_cond") &&
+    bool support = (profile == "kriging_dgm" || profile == "simtub_dgm" || profile == "krig_factors_cs" || starts(profile, "uniform_cond")) &&
                    variant != "no_support";
     if (support) e.anam->setRCoef(0.85);
     if (ANAM_MODEL.count(profile) && profile != "kriggam" && variant != "no_anam" && e.model != nullptr) e.model->setAnam(e.anam);
   }
-  if (profile == "krig_factors" || profile == "krig_factors_cs")
+  if (profile == "krig_factors" || profile == "krig_factors_cs" || profile == "krig_factors_one")
   {
     // the factors of the raw variable become the variables of the input data base
     AnamHermite* a = AnamHermite::create(12);
@@ -404,14 +422,21 @@ static void setup(const std::string& profile, const std::string& variant, Env& e
     a->rawToFactor(e.dbin, 2);
     delete a;
   }
-  if (profile == "cond_expectation" || profile == "uniform_cond" || profile == "disj_kriging")
+  if (selProfile && variant != "no_selectivity")
   {
-    if (variant != "no_selectivity")
+    // the recovery functions asked for fix the number of output variables (option classes of the profiles)
+    if (profile.size() > 3 && profile.substr(profile.size() - 3) == "_tq")
+      e.sel = Selectivity::createByCodes({ESelectivity::T, ESelectivity::Q}, {0., 0.5}, true, true);
+    else if (profile == "cond_expectation_tqbm")
+      e.sel = Selectivity::createByCodes({ESelectivity::T, ESelectivity::Q, ESelectivity::B, ESelectivity::M}, {0.5}, true, true);
+    else if (profile == "cond_expectation_one")
+      e.sel = Selectivity::createByCodes({ESelectivity::T}, {0.5}, true, false);
+    else
       e.sel = Selectivity::createByCodes({ESelectivity::T}, {0.5}, true, true);
   }
 
-  bool moving = profile == "test_neigh" || variant == "moving" || profile == "moving_average" || profile == "least_squares" ||
-                profile == "moving_median";
+  bool moving = profile == "test_neigh" || variant == "moving" || starts(profile, "moving_average") || profile == "least_squares" ||
+                starts(profile, "moving_median");
   if (profile == "krimage" || profile == "db_smoother" || variant == "image_neigh") e.neigh = NeighImage::create({1, 1});
   else if (moving) e.neigh = NeighMoving::create(false, 5, 10.);
   else e.neigh = NeighUnique::create();
@@ -477,7 +502,24 @@ static int invoke(const std::string& profile, const std::string& variant, Env& e
   DbGrid* gout = dynamic_cast<DbGrid*>(e.dbout);
   DbGrid* gin = dynamic_cast<DbGrid*>(e.dbin);
 
-  if (profile == "kriging" || profile == "kriging_moving" || profile == "kriging_extdrift" || profile == "kriging_varz")
+  if (profile == "kriging_one")
+    err = kriging(e.dbin, e.dbout, e.model, e.neigh, calcul, variant == "est", variant == "stdev", variant == "varz");
+  else if (profile == "kriging_2var")
+    err = kriging(e.dbin, e.dbout, e.model, e.neigh);
+  else if (profile == "kriging_lc")
+  {
+    MatrixRectangular* lc = MatrixRectangular::createFromVD({1., -0.5}, 1, 2);
+    err = kriging(e.dbin, e.dbout, e.model, e.neigh, calcul, true, true, false, VectorInt(), VectorInt(), lc);
+    delete lc;
+  }
+  else if (profile == "kriging_colcok")
+    err = kriging(e.dbin, e.dbout, e.model, e.neigh, calcul, true, true, false, VectorInt(), {ITEST, e.dbout->getUID("sec")});
+  else if (profile == "xvalid_one")
+    err = xvalid(e.dbin, e.model, e.neigh, false, variant == "esterr" ? 1 : (variant == "estim" ? -1 : 0),
+                 variant == "stderr" ? 1 : (variant == "stdev" ? -1 : 0), 0);
+  else if (profile == "xvalid_varz")
+    err = xvalid(e.dbin, e.model, e.neigh, false, 1, 1, 1);
+  else if (profile == "kriging" || profile == "kriging_moving" || profile == "kriging_extdrift" || profile == "kriging_varz")
   {
     bool varz = profile == "kriging_varz";
     if (variant == "nolocator")
@@ -497,6 +539,8 @@ static int invoke(const std::string& profile, const std::string& variant, Env& e
   {
     if (variant == "nolocator")
       err = xvalid(e.dbin, e.model, e.neigh, false, 1, 1, 0, VectorInt(), NamingConvention("Xvalid", true, true, false));
+    else if (variant == "raw")
+      err = xvalid(e.dbin, e.model, e.neigh, false, -1, -1, 0);
     else
       err = xvalid(e.dbin, e.model, e.neigh);
   }
@@ -514,11 +558,12 @@ static int invoke(const std::string& profile, const std::string& variant, Env& e
     err = krigprof(e.dbin, e.dbout, e.model, e.neigh);
   else if (profile == "kriggam")
     err = kriggam(e.dbin, e.dbout, e.model, e.neigh, e.anam);
-  else if (profile == "krig_factors" || profile == "krig_factors_cs")
+  else if (profile == "krig_factors" || profile == "krig_factors_cs" || profile == "krig_factors_one")
   {
     EKrigOpt c = calcul; VectorInt nd = ndiscs;
     if (variant == "block_no_ndisc") { c = EKrigOpt::BLOCK; nd.clear(); }
-    err = krigingFactors(e.dbin, e.dbout, e.model, e.neigh, c, nd);
+    bool one = profile == "krig_factors_one";
+    err = krigingFactors(e.dbin, e.dbout, e.model, e.neigh, c, nd, !one || variant != "stdev", !one || variant == "stdev");
   }
   else if (profile == "krimage")
     err = krimage(gin, e.model, e.neigh);
@@ -532,6 +577,12 @@ static int invoke(const std::string& profile, const std::string& variant, Env& e
     else if (variant == "thresh") oper = EMorpho::THRESH;
     else if (variant == "open") oper = EMorpho::OPEN;
     else if (variant == "unknown_oper") oper = EMorpho::UNKNOWN;
+    else if (variant == "negation") oper = EMorpho::NEGATION;
+    else if (variant == "close") oper = EMorpho::CLOSE;
+    else if (variant == "cc") oper = EMorpho::CC;
+    else if (variant == "ccsize") oper = EMorpho::CCSIZE;
+    else if (variant == "distance") oper = EMorpho::DISTANCE;
+    else if (variant == "angle") oper = EMorpho::ANGLE;
     if (variant == "nolocator")
       err = dbMorpho(gin, oper, 0.5, 2.5, 0, {1, 1}, false, false, NamingConvention("Morpho", true, true, false));
     else
@@ -558,14 +609,34 @@ static int invoke(const std::string& profile, const std::string& variant, Env& e
     if (variant == "nolocator")
       err = migrate(e.dbin, e.dbout, "z1", 1, VectorDouble(), false, false, false, NamingConvention("Migrate", false, true, false));
     else
-      err = migrate(e.dbin, e.dbout, variant == "bad_name" ? "nosuchvar" : "z1");
+      err = migrate(e.dbin, e.dbout, variant == "bad_name" ? "nosuchvar" : "z1", variant == "dist2" ? 2 : 1,
+                    variant == "dmax" ? VectorDouble({1., 1.}) : VectorDouble(),
+                    variant == "fill" || variant == "fill_ball" || variant == "g2g_fill", variant == "g2p_inter",
+                    variant == "fill_ball" || variant == "p2p_ball");
   }
-  else if (profile == "stats_grid")
-    err = dbStatisticsOnGrid(e.dbin, gout, EStatOption::MEAN);
+  else if (starts(profile, "stats_grid"))
+  {
+    // the operator (and the radius) are the option values of the profile
+    std::string o = variant.substr(0, variant.find('_'));
+    EStatOption oper = o == "num" ? EStatOption::NUM : o == "mean" ? EStatOption::MEAN : o == "var" ? EStatOption::VAR :
+                       o == "stdv" ? EStatOption::STDV : o == "mini" ? EStatOption::MINI : o == "maxi" ? EStatOption::MAXI :
+                       o == "corr" ? EStatOption::CORR : o == "plus" ? EStatOption::PLUS : o == "moins" ? EStatOption::MOINS :
+                       o == "zero" ? EStatOption::ZERO : o == "invalid" ? EStatOption::SUM :
+                       (profile == "stats_grid_var" ? EStatOption::STDV : profile == "stats_grid" ? EStatOption::NUM : EStatOption::MEAN);
+    err = dbStatisticsOnGrid(e.dbin, gout, oper, variant.find("radius1") != std::string::npos ? 1 : 0);
+  }
   else if (profile == "simple_interp")
-    err = inverseDistance(e.dbin, e.dbout);
+    err = inverseDistance(e.dbin, e.dbout, variant == "exponent1" ? 1. : 2., variant == "expand", variant == "dmax" ? 1.5 : TEST);
   else if (profile == "invdist_std")
     err = inverseDistance(e.dbin, e.dbout, 2., false, TEST, true, true, e.model);
+  else if (profile == "invdist_stdonly")
+    err = inverseDistance(e.dbin, e.dbout, 2., false, TEST, false, true, e.model);
+  else if (profile == "nearest_neighbor_std")
+    err = nearestNeighbor(e.dbin, e.dbout, true, true, e.model);
+  else if (profile == "moving_average_std")
+    err = movingAverage(e.dbin, e.dbout, e.neigh, true, true, e.model);
+  else if (profile == "moving_median_std")
+    err = movingMedian(e.dbin, e.dbout, e.neigh, true, true, e.model);
   else if (profile == "simfft" || profile == "simfft_multi")
   {
     SimuFFTParam param;
@@ -591,16 +662,19 @@ static int invoke(const std::string& profile, const std::string& variant, Env& e
     err = e.anam->rawToFactor(e.dbin, 2);
   else if (profile == "raw_to_factor_ranks")
     err = e.anam->rawToFactorByRanks(e.dbin, variant == "bad_rank" ? VectorInt({0, 99}) : VectorInt({1, 3}));
-  else if (profile == "cond_expectation")
+  else if (starts(profile, "cond_expectation"))
     err = ConditionalExpectation(e.dbin, e.anam, e.sel, variant == "bad_name" ? "nosuch" : "K.estim", "K.stdev", false, TEST,
                                  variant == "montecarlo" ? 20 : 0);
-  else if (profile == "uniform_cond")
+  else if (starts(profile, "uniform_cond"))
     err = UniformConditioning(e.dbin, e.anam, e.sel, variant == "bad_name" ? "nosuch" : "K.estim", "K.stdev");
-  else if (profile == "disj_kriging")
+  else if (starts(profile, "disj_kriging"))
     err = DisjunctiveKriging(e.dbin, e.anam, e.sel, {variant == "bad_name" ? "nosuch" : "F.1.estim", "F.2.estim"},
                              {"F.1.stdev", "F.2.stdev"});
   else if (profile == "regression")
-    err = dbRegression(e.dbin, "z1", {variant == "bad_name" ? "nosuchvar" : "x1"});
+  {
+    if (variant == "mode1") err = dbRegression(e.dbin, "z1", VectorString(), 1, true);
+    else err = dbRegression(e.dbin, "z1", {variant == "bad_name" ? "nosuchvar" : "x1"}, 0, variant == "cst");
+  }
   else if (profile == "nearest_neighbor")
     err = nearestNeighbor(e.dbin, e.dbout);
   else if (profile == "moving_average")
@@ -608,7 +682,7 @@ static int invoke(const std::string& profile, const std::string& variant, Env& e
   else if (profile == "moving_median")
     err = movingMedian(e.dbin, e.dbout, e.neigh);
   else if (profile == "least_squares")
-    err = leastSquares(e.dbin, e.dbout, e.neigh, 1);
+    err = leastSquares(e.dbin, e.dbout, e.neigh, variant == "order0" ? 0 : (variant == "order2" ? 2 : 1));
   else if (profile == "migrate_multi")
     err = migrateMulti(e.dbin, e.dbout, {variant == "bad_name" ? "nosuchvar" : "z1", "x1"});
   else if (profile == "migrate_locator")
@@ -657,20 +731,29 @@ static int invoke(const std::string& profile, const std::string& variant, Env& e
   else if (profile == "g2g_shrink") err = dbg2gShrink(gin, gout);
   else if (profile == "g2g_interp")
     err = dbg2gInterpolate(gin, gout, variant == "bad_tops" ? VectorString({"Top", "Bot"}) : VectorString({"Top"}), {"Bot"});
-  else if (profile == "simupost_up" || profile == "simupost_self" || profile == "simupost_demo" || profile == "simupost_layer")
+  else if (starts(profile, "simupost_"))
   {
     VectorString names = {variant == "bad_name" ? "nosuch*" : "SimA*"};
     std::vector<EPostStat> stats = {EPostStat::MEAN, EPostStat::VAR};
     if (profile == "simupost_layer") { names.push_back("SimB*"); stats = {EPostStat::MEAN}; }
+    if (profile == "simupost_match") names.push_back("SimB*");
+    if (profile == "simupost_up8")
+      stats = {EPostStat::MEAN, EPostStat::VAR, EPostStat::VARP, EPostStat::STD, EPostStat::STDP, EPostStat::MED, EPostStat::MINI, EPostStat::MAXI};
+    if (profile == "simupost_up1")
+      stats = {variant == "mini" ? EPostStat::MINI : variant == "maxi" ? EPostStat::MAXI : variant == "std" ? EPostStat::STD :
+               variant == "stdp" ? EPostStat::STDP : variant == "varp" ? EPostStat::VARP : EPostStat::MED};
     if (variant == "no_stat") stats.clear();
     EPostUpscale up = variant == "no_upscale" ? EPostUpscale::UNKNOWN : EPostUpscale::MEAN;
-    if (profile == "simupost_up") err = simuPost(e.dbin, gout, names, false, up, stats);
+    if (profile == "simupost_up")
+      up = variant == "num" ? EPostUpscale::NUM : variant == "mini" ? EPostUpscale::MINI : variant == "maxi" ? EPostUpscale::MAXI : up;
+    if (profile == "simupost_up" || profile == "simupost_up1" || profile == "simupost_up8") err = simuPost(e.dbin, gout, names, false, up, stats);
+    else if (profile == "simupost_match") err = simuPost(e.dbin, gout, names, true, up, stats);
     else if (profile == "simupost_self") err = simuPost(e.dbin, nullptr, names, false, up, stats);
     else if (profile == "simupost_demo") err = simuPostDemo(e.dbin, gout, names, false, up, stats);
     else err = simuPostPropByLayer(e.dbin, gout, names, false, true, up, stats);
   }
   else if (profile == "point_to_block")
-    err = pointToBlock(e.dbin, gout, 0, 0, -1, -1, -1, -1, -1, -1);
+    err = pointToBlock(e.dbin, gout, variant == "block" ? 1 : 0, variant == "size" ? 1 : 0, -1, -1, -1, -1, -1, -1);
   else if (profile == "expand_point_to_grid")
   {
     VectorDouble tab(gout->getSampleNumber(), 0.);
